@@ -188,6 +188,18 @@ class C03(L1Prop):
                     "http POST av hyph=latest:5 hyph=5 history b:3", "walk 5", "walk 1"]
             out.append(Case(f"c03-intrude-{j}", ops, {"inst": True, "intrude": True, "http": True, "group": "intrude", "sched": [], "cmode": "shared"}, mode="http"))
             k += 1
+        # the last accepted upload is sent once more (same parent, same bytes — a retry after a lost answer, or a second replica
+        # with the same change): two accepted versions never share a parent, overlapping or not
+        for j in range(sizes(tier, 4, 16)):
+            body = f"b:{j},7,7"
+            ops = ["http POST av hyph=nil hyph=1 history b:1", f"http POST av hyph=latest:1 hyph=1 history {body}", "dumpall",
+                   f"http POST av hyph=anc:1:1 hyph=1 history {body}", "dumpall", "http GET gcv hyph=anc:1:1 hyph=1 absent e", "dumpall",
+                   f"http POST av hyph=latest:1 hyph=1 history {body}", "dumpall", f"http POST av hyph=anc:1:1 hyph=1 history {body}", "dumpall", "walk 1"]
+            if j % 2:
+                ops = [o if not o.startswith("http POST av hyph=anc") else f"inst {j % 3}\n{o}" for o in ops]
+                ops = [x for o in ops for x in o.split("\n")]
+            out.append(Case(f"c03-resend-{j}", ops, {"inst": True, "http": True, "group": "resend", "sched": [], "cmode": "shared"}, mode="http"))
+            k += 1
         # right AFTER a request's transaction has committed — and before the request has been answered — another instance
         # stores a snapshot for the version just added: the answer is the one of the committed transaction
         for j in range(sizes(tier, 4, 16)):
@@ -419,7 +431,7 @@ def overlap_cases(prop, rng, tier):
         "C02": [("AVlatest", "AVlatest"), ("AVnew", "AVnew"), ("AVnewP", "AVnew"), ("AVlatest", "AVstale")],
         "C07": [("AVlatest", "AVlatest"), ("AVnew", "AVnew"), ("AVlatest", "ASlatest")],
         "C08": [("AVlatest", "GCVlatest"), ("AVnew", "GCVnew"), ("AVlatest", "AVlatest")],
-        "C11": [("ASlatest", "GS"), ("ASlatest", "AVlatest"), ("ASlatest", "ASlatest")],
+        "C11": [("ASlatest", "GS"), ("ASlatest", "AVlatest"), ("ASlatest", "ASlatest"), ("ASv2", "ASv3"), ("ASv1", "ASv3")],
         "C01": [("AVlatest", "AVlatest"), ("AVnew", "AVnew")],
         "C10": [("ASv1", "ASv2"), ("ASv1", "ASv3"), ("ASv2", "ASv3"), ("ASv3", "AVlatest4")],
         "C18": [("ASv1", "ASv2"), ("ASv1", "ASv3"), ("ASv2", "ASv3")],
@@ -501,7 +513,7 @@ def overlap_oracle(prop, case, trace, backend):
                     fails.append(f"after the overlap get-child-version({h1.seg}) answered 410 but the upload on that parent was answered {r2.status} {where}")
             if h1.route == "av" and r1.status == 200 and h2.route == "gcv" and h2.cid == h1.cid and h2.seg == h1.seg and r2.status != 200:
                 fails.append(f"after the overlap the child of {h1.seg} was just accepted ({r1.xv}) but get-child-version answered {r2.status} {where}")
-    if prop in ("C10", "C18"):
+    if prop in ("C10", "C18", "C11") and case.meta["group"].startswith("ASv"):
         # (C18: the upload for the older version is a DECLINED one in every one-at-a-time order in which
         # it comes second, and a replaced one when it comes first: either way it does not survive)
         # both uploads were acceptable when the overlap began (no snapshot yet, both within the five
